@@ -977,6 +977,20 @@ def estimate_vcs(read, T):
                           "expression-identity", DISCHARGED if ok else FAILED, 0.0, "complete", [fn], checks=1,
                           detail="" if ok else "output_frames_next() computes `%s`, the documented estimate is `%s`: while a ramp is pending the "
                                                "number of frames written can exceed what is advertised" % (syn.norm_text(got), wantn)))
+    # output_frames_max() is the same expression at the largest chunk and the largest accepted ratio (original*max, the very
+    # product the setters compare against): next <= max then follows bit-precisely from monotonicity of *, +, as usize
+    # and from `accepted ratio <= original*max` (C12 contracts)
+    cm = "self.max_chunk_size" if "max_chunk_size" in syn.struct_fields(src, kind.T) else "self.chunk_size"
+    want_max = syn.norm_text(rp.parse_expr("(((%s as f64) * (self.resample_ratio_original * self.max_relative_ratio)) + 10.0) as usize" % cm))
+    sigm, bodym, l0m, _ = rp.find_fn(src, "output_frames_max", impl)
+    gotm = syn.inline_self_getters(syn.subst(bodym[2], syn.let_env(bodym[1], syn.subst)), src, [impl, inherent])
+    okm = syn.norm_text(gotm) == want_max
+    obs.append(Obligation("%s.output_frames_max :: C04 the advertised maximum is the estimate at the largest chunk and the largest accepted ratio "
+                          "(original*max as one product), hence output_frames_next() <= output_frames_max() by monotonicity" % T,
+                          "expression-identity", DISCHARGED if okm else FAILED, 0.0, "complete", [T + "::output_frames_max"], checks=1,
+                          detail="" if okm else "output_frames_max() computes `%s`, expected `%s`: it is then not a bound for output_frames_next() at every "
+                                                "reachable ratio (e.g. chunk 1392, original 44100/48000, max 10 with the product associated differently: 12799 > 12798)" % (
+                                                    syn.norm_text(gotm), want_max)))
     S = Structure(kind, src)
     env = syn.let_env(S.setup, syn.subst)
     if "approximate_nbr_frames" in env:
@@ -987,6 +1001,98 @@ def estimate_vcs(read, T):
                               DISCHARGED if ok2 else FAILED, 0.0, "complete", [T + "::process_into_buffer"], checks=1,
                               detail="" if ok2 else "approximate_nbr_frames is `%s`, expected `%s`" % (got2, want2)))
     return obs
+
+
+def rampstep_vcs(read, T):
+    """C06, ANY call (ramps included): the stepping prefix of every arm advances `t_ratio` by exactly the per-frame increment and
+    `idx` by exactly the new t_ratio (both up to rounding), for an arbitrary loop state.  For the fixed-output types, whose ramp is
+    spread over exactly chunk_size frames, the spacing also stays between the reciprocals of the old and the new ratio and ends at
+    1/new."""
+    kind = KINDS[T]
+    src = read(kind.file)
+    S = Structure(kind, src)
+    obs = []
+    for arm in S.arms:
+        st = State(kind, src, ramp=True)
+        env = st.env
+        install_helpers(env, read, kind, src)
+        env.abs_slack = E_STEP
+        v = st.v
+        fn = T + "::process_into_buffer"
+        vc = VC("%s.process.%s.ramp_step(any call)" % (T, arm.name), fn)
+        vc.witness = st.witness() + [v("target_ratio") == 1]
+        vc.assume(st.wf_cfg() + st.wf_ratio())
+        if kind.sinc:
+            vc.assume(st.factor >= {"Cubic": 3, "Quadratic": 3, "Linear": 2}.get(arm.name, 1))
+        for s_ in S.setup:
+            if s_[0] == "let":
+                env.exec_stmt(s_)
+        for d in arm.decls:
+            env.exec_stmt(d)
+        T0 = env.get("t_ratio").t
+        inc = env.get("t_ratio_increment").t
+        tend = env.get("t_ratio_end").t
+        idx_h, tr_h, cnt_h = z3.Real("idx_h"), z3.Real("t_ratio_h"), z3.Int("count_h")
+        env.vars["idx"] = Val(idx_h, "f64")
+        env.vars["t_ratio"] = Val(tr_h, "f64")
+        cname = "n" if arm.loop[0] == "while" else arm.loop[1][2][0]
+        env.vars[cname] = Val(cnt_h, "usize")
+        chunk = v("chunk_size")
+        vc.assume(idx_h >= -(2 ** 17), idx_h <= 2 ** 17, tr_h > 0, tr_h <= 128, cnt_h >= 0, cnt_h <= 2 ** 23)
+        for s_ in arm.stepping:
+            env.exec_stmt(s_)
+        trn, idxn = env.vars["t_ratio"].t, env.vars["idx"].t
+        tol = z3.Q(1, 2 ** 40)
+        vc.goal("C06 the spacing changes by exactly the per-frame increment: t_ratio' == t_ratio + t_ratio_increment (rounded)",
+                z3.And(trn - (tr_h + inc) <= E_STEP, trn - (tr_h + inc) >= -E_STEP))
+        vc.goal("C06 the instant advances by exactly the new spacing: idx' == idx + t_ratio' (rounded)",
+                z3.And(idxn - (idx_h + trn) <= E_STEP, idxn - (idx_h + trn) >= -E_STEP))
+        if not kind.fixed_in:
+            # linear ramp over exactly chunk_size frames
+            TRc = z3.ToReal
+            vc.assume(cnt_h < chunk, tr_h - (T0 + TRc(cnt_h) * inc) <= TRc(cnt_h) * E_STEP, tr_h - (T0 + TRc(cnt_h) * inc) >= -TRc(cnt_h) * E_STEP)
+            lo_, hi_ = z3.If(T0 <= tend, T0, tend), z3.If(T0 <= tend, tend, T0)
+            vc.lemma("the increment is (1/new - 1/old)/chunk_size", z3.And(inc * TRc(chunk) - (tend - T0) <= tol * 256, inc * TRc(chunk) - (tend - T0) >= -tol * 256))
+            vc.lemma("(count+1) * increment stays within the total change", z3.And(TRc(cnt_h + 1) * inc <= z3.If(inc >= 0, TRc(chunk) * inc, R(0)),
+                                                                                  TRc(cnt_h + 1) * inc >= z3.If(inc >= 0, R(0), TRc(chunk) * inc)),
+                     using=[cnt_h >= 0, cnt_h < chunk, chunk >= 1, chunk <= CHUNK_MAX])
+            vc.goal("C06 during a ramp the spacing stays between the reciprocals of the old and the new ratio (2^-16 slack)",
+                    z3.And(trn >= lo_ - z3.Q(1, 2 ** 16), trn <= hi_ + z3.Q(1, 2 ** 16)))
+            vc.goal("C06 the ramp follows the straight line from 1/old to 1/new: t_ratio' == T0 + (count+1)*increment",
+                    z3.And(trn - (T0 + TRc(cnt_h + 1) * inc) <= TRc(cnt_h + 1) * E_STEP, trn - (T0 + TRc(cnt_h + 1) * inc) >= -TRc(cnt_h + 1) * E_STEP))
+        obs += vc.discharge(env)
+    return obs
+
+
+def inmax_vcs(read, T):
+    """C04 (fixed-output types): at every state of the representation invariant input_frames_next() <= input_frames_max()."""
+    kind = KINDS[T]
+    if kind.fixed_in:
+        return []
+    src = read(kind.file)
+    st = State(kind, src, ramp=True)
+    env = st.env
+    install_helpers(env, read, kind, src)
+    D = z3.Real("f32_slack")
+    v = st.v
+    vc = VC("%s.input_frames_max" % T, T + "::input_frames_max")
+    vc.witness = st.witness() + [v("target_ratio") == 1]
+    vc.assume(wf_all(st, D))
+    sig, body, l0, _ = rp.find_fn(src, "input_frames_max", ["Resampler", "for " + kind.T + "<"])
+    if body[1] or body[2] is None:
+        raise Undecided("input_frames_max is not a single expression")
+    val = env.ev(body[2])
+    vc.take_side(env)
+    TRc = z3.ToReal
+    lo1 = st.lo * (1 - z3.Q(1, 2 ** 30))
+    rr, tt = v("resample_ratio"), v("target_ratio")
+    vc.lemma("chunk/mean ratio <= max_chunk/lo", TRc(v("chunk_size")) / (rr / 2 + tt / 2) <= TRc(st.maxchunk) / lo1,
+             using=st.wf_ratio() + st.wf_cfg())
+    vc.lemma("max_chunk/lo == max_chunk/original*max up to 2^-29", TRc(st.maxchunk) / lo1 <= TRc(st.maxchunk) / v("resample_ratio_original") * v("max_relative_ratio") * (1 + z3.Q(1, 2 ** 29)),
+             using=st.wf_cfg())
+    vc.goal("C04 input_frames_next() <= input_frames_max() at every state satisfying the representation invariant",
+            v("needed_input_size") <= val.t)
+    return vc.discharge(env)
 
 
 def delay_vcs(read, T):
@@ -1324,7 +1430,7 @@ def _run_type(args):
     read = lambda f: open(os.path.join(root, "src", f)).read()
     out = []
     for part, fn in (("process", process_vcs), ("process", postblock_vcs), ("process", estimate_vcs), ("setters", setter_vcs), ("reset", reset_vcs),
-                     ("delay", delay_vcs)):
+                     ("delay", delay_vcs), ("process", inmax_vcs), ("process", rampstep_vcs)):
         if part not in what:
             continue
         try:
